@@ -253,6 +253,31 @@ func c10(r *eng.Run) {
 		results = append(results, res)
 		r.Set("hostile_node_classes_"+entryOf(kind), len(seenClass))
 	}
+	// hostile answers on wider documents too (up to N member nodes, <= 2 hostile answers)
+	{
+		ds := eng.GenDocs(r.Pick(4, 5), []string{"null", "-1.5e1", `"a` + "\\" + `n"`}, []string{`"k"`})
+		var texts []string
+		for n := 2; n < len(ds.BySize); n++ {
+			texts = append(texts, ds.BySize[n]...)
+		}
+		for _, t := range texts {
+			w := eng.Exact([]byte(eng.Style(t, 1)))
+			kind := byte('[')
+			if strings.HasPrefix(t, "{") {
+				kind = '{'
+			}
+			eng.Beat(w)
+			st := eng.ExploreChoices(func(c *eng.Chooser) {
+				bad, exp, got, trace := checkHostile(kind, w, nil, c.Choose)
+				if bad != "" {
+					r.Violation(eng.Replay{Engine: "handler", Entry: entryOf(kind), Sig: bad + "/doc/" + entryOf(kind), InputB64: w, Choices: append([]int(nil), c.Trace...), Expected: exp, Got: got,
+						Extra: map[string]interface{}{"kind": string(kind), "handler_returns": trace}})
+				}
+			}, 1, r.Pick(1, 2))
+			hostileExecs += st.Executions
+		}
+		r.Set("hostile_document_texts", len(texts))
+	}
 	// (i)+(iv) every exported function on every node of a generic exploration (all dead
 	// children included: those are the hostile inputs)
 	apiRuns := 0
